@@ -10,6 +10,17 @@ REPO = os.environ.get("VERIF_REPO", "/repo")
 sys.path.insert(0, REPO)
 
 
+def _partial_runs_do_not_touch_registered_evidence():
+    """a run restricted with --only covers part of a check: its evidence and replays go to a scratch directory"""
+    import tempfile
+    if "--only" in " ".join(sys.argv) and not os.environ.get("VERIF_OUT"):
+        os.environ["VERIF_OUT"] = tempfile.mkdtemp(prefix="verif_partial_")
+        print("partial run (--only): evidence and replays are written to %s" % os.environ["VERIF_OUT"], file=sys.stderr)
+
+
+_partial_runs_do_not_touch_registered_evidence()
+
+
 def main(argv=None):
     ap = argparse.ArgumentParser()
     ap.add_argument("prop")
